@@ -21,14 +21,15 @@ func (e *Env) Stamp() Stamp {
 
 // GwEpoch is one connection as the gateway sees it.
 type GwEpoch struct {
-	Channel uint8
-	ExpIn   uint8 // next sequence number expected from the client
-	OutSeq  uint8 // sequence number of the next request to the client
-	Start   Stamp
-	End     Stamp
-	Dead    bool
-	Touched bool // the client has used this channel
-	ConnRes []byte
+	Channel  uint8
+	ExpIn    uint8 // next sequence number expected from the client
+	OutSeq   uint8 // sequence number of the next request to the client
+	Start    Stamp
+	End      Stamp
+	Dead     bool
+	Touched  bool   // the client has used this channel
+	TouchRef uint64 // wire-log number of the earliest-sent client frame seen on this channel
+	ConnRes  []byte
 }
 
 // BusEntry is a telegram the gateway forwarded to the bus.
@@ -70,11 +71,12 @@ type Gateway struct {
 	cur      *GwEpoch
 	nextChan uint8
 
-	Bus    []BusEntry
-	Outs   []*GwOut
-	outQ   []int
-	pend   *GwOut
-	pendEv interface{ Cancel() bool }
+	Bus     []BusEntry
+	Outs    []*GwOut
+	outQ    []int
+	pend    []*GwOut // transmitted, not yet acknowledged (at most Window)
+	Window  int      // 1 = stop-and-wait as the tunnelling rules demand; >1 = a server that bursts
+	nextOut uint8    // sequence number of the next new request
 
 	// behaviour knobs
 	Silent        bool          // answers nothing at all
@@ -84,8 +86,8 @@ type Gateway struct {
 	ConnScript    []connAction  // consumed per received connect request; exhausted = ok
 	OutResend     time.Duration // repeat interval of own requests
 	OutAttempts   int           // transmissions before giving up
-	DiscOnGiveUp  bool
-	AckStatus     uint8 // status put into acknowledgements (0 = OK)
+	DiscOnGiveUp  bool          // (always true: kept for the record of what "rule-following" means)
+	AckStatus     uint8         // status put into acknowledgements (0 = OK)
 	AckStatusOnce bool
 
 	ConnReqs    []Stamp
@@ -95,7 +97,7 @@ type Gateway struct {
 }
 
 func newGateway(e *Env, ip string, port int) *Gateway {
-	g := &Gateway{e: e, OutResend: time.Second, OutAttempts: 2, DiscOnGiveUp: true}
+	g := &Gateway{e: e, OutResend: time.Second, OutAttempts: 2, DiscOnGiveUp: true, Window: 1}
 	g.sock = e.F.ListenUDPOn(ip, port)
 	g.addr = &net.UDPAddr{IP: net.ParseIP(ip).To4(), Port: port}
 	g.nextChan = uint8(e.Choose("cfg.chan0", 256))
@@ -140,6 +142,7 @@ func (g *Gateway) newEpoch() *GwEpoch {
 	}
 	ep := &GwEpoch{Channel: g.nextChan, Start: g.e.Stamp()}
 	g.nextChan++
+	g.nextOut = 0
 	ep.ConnRes = mkConnRes(ep.Channel, 0, g.hpai())
 	g.Epochs = append(g.Epochs, ep)
 	g.cur = ep
@@ -155,10 +158,6 @@ func (g *Gateway) killEpoch(why string) {
 	g.cur.End = g.e.Stamp()
 	g.e.S.Logf("gw epoch ch=%d dead: %s", g.cur.Channel, why)
 	g.cur = nil
-	if g.pendEv != nil {
-		g.pendEv.Cancel()
-		g.pendEv = nil
-	}
 	g.pend = nil
 	g.outQ = nil
 }
@@ -197,14 +196,20 @@ func (g *Gateway) handle(raw []byte, from *net.UDPAddr, ref uint64) {
 		g.e.Fault("gateway-silent-drop")
 		return
 	}
+	if g.cur != nil && f.Svc != svcConnReq && f.Svc != svcConnRes && len(f.Body) >= 2 {
+		ch := f.Channel
+		if ch == g.cur.Channel && ref != 0 && (!g.cur.Touched || ref < g.cur.TouchRef) {
+			g.cur.Touched, g.cur.TouchRef = true, ref
+		}
+	}
 	switch f.Svc {
 	case svcConnReq:
 		g.peer = from
-		if g.cur != nil && ref != 0 && ref < g.cur.Start.Seq {
-			// A copy of a connect request that the client sent before this connection was even
-			// created (a delayed retransmission of the request that created it). A server cannot
-			// tell it from a new request and would open a second connection next to the first;
-			// this stub keeps a single connection and lets the network lose the stale copy.
+		if g.cur != nil && ref != 0 && (ref < g.cur.Start.Seq || g.cur.Touched && ref < g.cur.TouchRef) {
+			// A copy of a connect request that the client sent before it started to use this
+			// connection (a delayed retransmission of the request that created it). A server
+			// cannot tell it from a new request and would open a second connection next to the
+			// first; this stub keeps a single connection and lets the network lose the stale copy.
 			g.e.Fault("stale-connect-request-dropped")
 			return
 		}
@@ -240,7 +245,6 @@ func (g *Gateway) handle(raw []byte, from *net.UDPAddr, ref uint64) {
 			return
 		}
 		if g.cur != nil && f.Channel == g.cur.Channel {
-			g.cur.Touched = true
 			if g.StateStatus != 0 {
 				g.e.Fault("gateway-error-status")
 			}
@@ -263,7 +267,6 @@ func (g *Gateway) handle(raw []byte, from *net.UDPAddr, ref uint64) {
 		if ep == nil || f.Channel != ep.Channel {
 			return // unknown connection: ignored (a real server answers nothing useful either)
 		}
-		ep.Touched = true
 		switch f.Seq {
 		case ep.ExpIn:
 			ep.ExpIn++
@@ -289,23 +292,21 @@ func (g *Gateway) handle(raw []byte, from *net.UDPAddr, ref uint64) {
 		g.send(mkTunnelRes(f.Channel, f.Seq, st))
 	case svcTunnelRes:
 		ep := g.cur
-		if ep == nil || f.Channel != ep.Channel || g.pend == nil {
+		if ep == nil || f.Channel != ep.Channel {
 			return
 		}
-		ep.Touched = true
-		if f.Seq != g.pend.Seq {
-			return
+		for i, o := range g.pend {
+			if o.Seq != f.Seq {
+				continue
+			}
+			o.Acked = true
+			o.AckAt = g.e.Stamp()
+			g.e.S.Logf("gw acked id=%d seq=%d st=%d", o.ID, f.Seq, f.Status)
+			g.pend = append(g.pend[:i:i], g.pend[i+1:]...)
+			ep.OutSeq++
+			g.kick()
+			break
 		}
-		g.pend.Acked = true
-		g.pend.AckAt = g.e.Stamp()
-		g.e.S.Logf("gw acked id=%d seq=%d st=%d", g.pend.ID, f.Seq, f.Status)
-		if g.pendEv != nil {
-			g.pendEv.Cancel()
-			g.pendEv = nil
-		}
-		g.pend = nil
-		ep.OutSeq++
-		g.kick()
 	}
 }
 
@@ -322,18 +323,27 @@ func (g *Gateway) Push(id int) {
 func (g *Gateway) QueueLen() int { return len(g.outQ) }
 
 // Idle reports whether the gateway has nothing outstanding towards the client.
-func (g *Gateway) Idle() bool { return g.pend == nil && len(g.outQ) == 0 }
+func (g *Gateway) Idle() bool { return len(g.pend) == 0 && len(g.outQ) == 0 }
 
 func (g *Gateway) kick() {
-	if g.pend != nil || len(g.outQ) == 0 || g.cur == nil {
-		return
+	for len(g.pend) < g.Window && len(g.outQ) > 0 && g.cur != nil {
+		id := g.outQ[0]
+		g.outQ = g.outQ[1:]
+		o := &GwOut{ID: id, Channel: g.cur.Channel, Seq: g.nextOut}
+		g.nextOut++
+		g.Outs = append(g.Outs, o)
+		g.pend = append(g.pend, o)
+		g.transmit(o)
 	}
-	id := g.outQ[0]
-	g.outQ = g.outQ[1:]
-	o := &GwOut{ID: id, Channel: g.cur.Channel, Seq: g.cur.OutSeq}
-	g.Outs = append(g.Outs, o)
-	g.pend = o
-	g.transmit(o)
+}
+
+func (g *Gateway) isPending(o *GwOut) bool {
+	for _, p := range g.pend {
+		if p == o {
+			return true
+		}
+	}
+	return false
 }
 
 func (g *Gateway) transmit(o *GwOut) {
@@ -342,21 +352,15 @@ func (g *Gateway) transmit(o *GwOut) {
 	}
 	o.Attempts++
 	g.send(mkTunnelReq(o.Channel, o.Seq, idCEMI(0x29, o.ID)))
-	g.pendEv = g.e.S.At(g.OutResend, fmt.Sprintf("gw-resend id=%d", o.ID), func() {
-		if g.pend != o {
+	g.e.S.At(g.OutResend, fmt.Sprintf("gw-resend id=%d", o.ID), func() {
+		if !g.isPending(o) {
 			return
 		}
 		if o.Attempts >= g.OutAttempts {
 			o.GaveUp = true
 			g.e.Probe("gw-gave-up")
-			if g.DiscOnGiveUp {
-				g.Disconnect()
-			} else {
-				// skip the telegram but keep the connection (and the sequence number, as the
-				// request was never acknowledged)
-				g.pend = nil
-				g.kick()
-			}
+			// the tunnelling rules: after the repetition went unanswered the server ends the connection
+			g.Disconnect()
 			return
 		}
 		g.e.Probe("gw-resend")
